@@ -38,6 +38,9 @@ thread_local! {
     static ALLOCATED: Cell<u64> = const { Cell::new(0) };
     static MAX_SINGLE: Cell<u64> = const { Cell::new(0) };
     static LIMIT: Cell<u64> = const { Cell::new(u64::MAX) };
+    static WATCH_LO: Cell<u64> = const { Cell::new(u64::MAX) };
+    static WATCH_HI: Cell<u64> = const { Cell::new(0) };
+    static WATCH_HITS: Cell<u64> = const { Cell::new(0) };
     static SCANNING: Cell<bool> = const { Cell::new(false) };
     static SCAN: UnsafeCell<ScanState> = const { UnsafeCell::new(ScanState { needle: [0; 32], hits: [None; MAX_HITS], n_hits: 0, freed_blocks: 0, freed_bytes: 0 }) };
 }
@@ -58,6 +61,15 @@ fn note_alloc(size: usize) {
             let _ = MAX_SINGLE.try_with(|m| {
                 if size as u64 > m.get() {
                     m.set(size as u64)
+                }
+            });
+            let _ = WATCH_LO.try_with(|lo| {
+                if size as u64 >= lo.get() {
+                    let _ = WATCH_HI.try_with(|hi| {
+                        if size as u64 <= hi.get() {
+                            let _ = WATCH_HITS.try_with(|h| h.set(h.get() + 1));
+                        }
+                    });
                 }
             });
         }
@@ -130,10 +142,21 @@ unsafe impl GlobalAlloc for QpvAlloc {
 pub struct Accounting {
     pub allocated: u64,
     pub max_single: u64,
+    /// allocations whose size fell into the watched range (see `account_watching`)
+    pub watched_hits: u64,
 }
 
 /// Run `f` with allocation accounting armed on this thread.
 pub fn account<T>(limit: Option<u64>, f: impl FnOnce() -> T) -> (T, Accounting) {
+    account_watching(limit, u64::MAX, 0, f)
+}
+
+/// As `account`, additionally counting allocations with size in `lo..=hi` (used to tell
+/// "the oversized file was read into memory" apart from unrelated large allocations).
+pub fn account_watching<T>(limit: Option<u64>, lo: u64, hi: u64, f: impl FnOnce() -> T) -> (T, Accounting) {
+    WATCH_LO.with(|c| c.set(lo));
+    WATCH_HI.with(|c| c.set(hi));
+    WATCH_HITS.with(|c| c.set(0));
     ALLOCATED.with(|c| c.set(0));
     MAX_SINGLE.with(|c| c.set(0));
     LIMIT.with(|c| c.set(limit.unwrap_or(u64::MAX)));
@@ -141,7 +164,8 @@ pub fn account<T>(limit: Option<u64>, f: impl FnOnce() -> T) -> (T, Accounting) 
     let r = f();
     ACCOUNTING.with(|c| c.set(false));
     LIMIT.with(|c| c.set(u64::MAX));
-    (r, Accounting { allocated: ALLOCATED.with(|c| c.get()), max_single: MAX_SINGLE.with(|c| c.get()) })
+    WATCH_LO.with(|c| c.set(u64::MAX));
+    (r, Accounting { allocated: ALLOCATED.with(|c| c.get()), max_single: MAX_SINGLE.with(|c| c.get()), watched_hits: WATCH_HITS.with(|c| c.get()) })
 }
 
 // --------------------------------------------------------------------- scanning API
